@@ -31,6 +31,9 @@ pub enum Wrap {
     TryFinally,
     /// try { throw } finally { body }: the body runs while an exception is in flight
     InFinally,
+    /// var l = ..; try { body } catch e { .. } print(l): a local declared just before the try statement
+    /// must survive whatever error the body's calls report
+    LocalTry,
 }
 
 #[derive(Clone, Debug, PartialEq, Eq, Hash)]
@@ -57,6 +60,8 @@ enum Ins {
     Print(String),
     Yield(Option<String>, bool), // value, print the resume value?
     CallF(usize, Option<String>),
+    /// the same call as an expression statement: the result is dropped
+    CallFQuiet(usize, Option<String>),
     Ret(String),
     RetNil,
     Throw(String),
@@ -82,6 +87,9 @@ fn compile(f: usize, s: &Script) -> Vec<Ins> {
             Act::Y => Ins::Yield(Some(tag("y")), false),
             Act::Y0 => Ins::Yield(None, false),
             Act::XY => Ins::Yield(Some(tag("x")), true),
+            // under the LocalTry wrapper a call with an argument is an expression statement: the failing
+            // call then starts at the stack height of the enclosing handler
+            Act::C(j, true) if s.wrap == Wrap::LocalTry => Ins::CallFQuiet(*j, Some(tag("a"))),
             Act::C(j, arg) => Ins::CallF(*j, if *arg { Some(tag("a")) } else { None }),
             Act::R => Ins::Ret(tag("r")),
             Act::T => Ins::Throw(tag("t")),
@@ -117,6 +125,16 @@ fn compile(f: usize, s: &Script) -> Vec<Ins> {
         }
         Wrap::Local => {
             code.extend(body);
+            code.push(Ins::Print(format!("L{}", f)));
+            code.push(Ins::RetNil);
+        }
+        Wrap::LocalTry => {
+            // [EnterTry(c)] body [LeaveTry(end)] c: [CatchPrint] end: [Print L] [RetNil]
+            let c = code.len() + 1 + body.len() + 1;
+            code.push(Ins::EnterTry(c));
+            code.extend(body);
+            code.push(Ins::LeaveTry(c + 1));
+            code.push(Ins::CatchPrint);
             code.push(Ins::Print(format!("L{}", f)));
             code.push(Ins::RetNil);
         }
@@ -251,6 +269,10 @@ impl<'a> Model<'a> {
                         }
                         Err(e) => Err(e),
                     }
+                }
+                Ins::CallFQuiet(k, arg) => {
+                    let n = if arg.is_some() { 1 } else { 0 };
+                    self.call_fiber(w, k, n, arg).map(|_| ())
                 }
                 Ins::HasFin(k) => {
                     self.out.push(if w.fibers[k].status == Status::Finished { "true".into() } else { "false".into() });
@@ -389,6 +411,7 @@ fn render_fiber(f: usize, s: &Script) -> String {
             Act::Y => format!("    Fiber.yield(\"{}\");\n", tag("y")),
             Act::Y0 => "    Fiber.yield();\n".to_string(),
             Act::XY => format!("    var x{i} = Fiber.yield(\"{t}\");\n    print(x{i});\n", i = i, t = tag("x")),
+            Act::C(j, true) if s.wrap == Wrap::LocalTry => format!("    F{}.call(\"{}\");\n", j, tag("a")),
             Act::C(j, true) => format!("    print(F{}.call(\"{}\"));\n", j, tag("a")),
             Act::C(j, false) => format!("    print(F{}.call());\n", j),
             Act::R => format!("    return \"{}\";\n", tag("r")),
@@ -401,6 +424,7 @@ fn render_fiber(f: usize, s: &Script) -> String {
         Wrap::Frame => format!("    fn inner() {{\n{}    }}\n    var r = inner();\n    print(\"inner returned ${{r}}\");\n", body),
         Wrap::Try => format!("    try {{\n{}    }} catch e {{\n    print(\"caught\");\n    print(type(e));\n    }}\n", body),
         Wrap::Local => format!("    var l = \"L{}\";\n{}    print(l);\n", f, body),
+        Wrap::LocalTry => format!("    var l = \"L{}\";\n    try {{\n{}    }} catch e {{\n    print(\"caught\");\n    print(type(e));\n    }}\n    print(l);\n", f, body),
         Wrap::Cap => format!("    var c = 0;\n    var inc = || {{ c = c + 1; return c; }};\n    print(inc());\n{}    print(inc());\n", body),
         Wrap::TryFinally => format!("    try {{\n{}    }} finally {{\n    print(\"fin{}\");\n    }}\n", body, f),
         Wrap::InFinally => format!("    try {{\n    throw \"tf{}\";\n    }} finally {{\n{}    }}\n", f, body),
@@ -479,7 +503,7 @@ pub fn run(ctx: &Ctx) -> Report {
     let nf = 2;
     let script_len = if thorough { 3 } else { 2 };
     let main_depth = if thorough { 6 } else { 5 };
-    let wraps = [Wrap::None, Wrap::Frame, Wrap::Try, Wrap::Local, Wrap::Cap, Wrap::TryFinally, Wrap::InFinally];
+    let wraps = [Wrap::None, Wrap::Frame, Wrap::Try, Wrap::Local, Wrap::Cap, Wrap::TryFinally, Wrap::InFinally, Wrap::LocalTry];
     let mut f0_scripts: Vec<Script> = Vec::new();
     for b in bodies(script_len, 0, nf) {
         for w in wraps {
@@ -495,6 +519,11 @@ pub fn run(ctx: &Ctx) -> Report {
                 }
                 // inside a finally block entered by an exception: no abrupt exit from the finally block (X)
                 if w == Wrap::InFinally && b.iter().any(|a| matches!(a, Act::R | Act::T)) {
+                    continue;
+                }
+                // the LocalTry wrapper differs from Try and Local only where a call with an argument can
+                // report an error
+                if w == Wrap::LocalTry && !b.iter().any(|a| matches!(a, Act::C(_, true))) {
                     continue;
                 }
                 if thorough || b.len() <= 2 {
@@ -520,7 +549,23 @@ pub fn run(ctx: &Ctx) -> Report {
     let mut max_depth = 0usize;
     let mut fired: HashSet<String> = HashSet::new();
     let mut interleavings: HashSet<String> = HashSet::new();
+    // cases are run in batches of a few hundred thousand (all of them at once do not fit in memory in the
+    // thorough tier)
+    let monitor = |_e: &Expect, r: &proto::Response| -> Option<String> {
+        if r.monitor_failures > 0 {
+            Some(format!("the raw active-fiber pointer disagreed with the active fiber at {} of {} instruction fetches", r.monitor_failures, r.monitor_checks))
+        } else {
+            None
+        }
+    };
+    let mut stats = expect::ExpectStats::default();
+    let mut n_cases = 0usize;
     for s0 in &f0_scripts {
+        if cases.len() >= 300_000 {
+            n_cases += cases.len();
+            let batch = std::mem::take(&mut cases);
+            stats.merge(expect::run_expect(ctx, &ctx.runner_checked, batch.into_iter(), &monitor, &|_e, _p| None));
+        }
         for (s1_index, s1) in f1_scripts.iter().enumerate() {
             // quick tier: what follows an action reported as an error is explored for three of the ten
             // representative scripts of fiber 1 (the empty one, yield-then-return, call of fiber 0)
@@ -639,23 +684,17 @@ pub fn run(ctx: &Ctx) -> Report {
         }
     }
     // vacuity: every action and wrapper of the alphabet occurred
-    for need in ["P", "Y", "Y0", "XY", "C", "R", "T", "HF", "Frame", "Try", "Local", "Cap", "TryFinally", "InFinally"] {
+    for need in ["P", "Y", "Y0", "XY", "C", "R", "T", "HF", "Frame", "Try", "Local", "Cap", "TryFinally", "InFinally", "LocalTry"] {
         if !fired.contains(need) {
             crate::pool::machinery_failure(&format!("C09: action {} never occurred in any script", need));
         }
     }
-    let n_cases = cases.len();
-    let stats = expect::run_expect(
-        ctx,
-        &ctx.runner_checked,
-        cases.into_iter(),
-        &|_e, r| if r.monitor_failures > 0 { Some(format!("the raw active-fiber pointer disagreed with the active fiber at {} of {} instruction fetches", r.monitor_failures, r.monitor_checks)) } else { None },
-        &|_e, _p| None,
-    );
+    n_cases += cases.len();
+    stats.merge(expect::run_expect(ctx, &ctx.runner_checked, cases.into_iter(), &monitor, &|_e, _p| None));
     expect::fill(
         &mut report,
         &stats,
-        "for every pair of fiber scripts (fiber 0: every script up to the length bound over {print, yield value, yield nothing, x = yield, call the other fiber with/without argument, call itself, has_finished, return, throw} under each wrapper {none, nested function frame, try/catch, local kept across suspensions, captured variable, try/finally around the script, script inside a finally block entered by an exception}, with and without a parameter; fiber 1: representative scripts) a breadth-first search over sequences of main-program actions {call, call with argument, call with two arguments, has_finished, yield at top level} with canonical hashing of the model state; every transition is replayed on the real VM (program = definitions + action path) and must print exactly the model's labels; the fiber/raw-pointer agreement monitor runs at every instruction. For the plain wrapper every transition is replayed a second time with the fibers defined in an imported module and a main program that updates and prints a global of its own straight after every action.",
+        "for every pair of fiber scripts (fiber 0: every script up to the length bound over {print, yield value, yield nothing, x = yield, call the other fiber with/without argument, call itself, has_finished, return, throw} under each wrapper {none, nested function frame, try/catch, local kept across suspensions, captured variable, try/finally around the script, script inside a finally block entered by an exception, a local declared just before a try/catch around the script and printed after it}, with and without a parameter; fiber 1: representative scripts) a breadth-first search over sequences of main-program actions {call, call with argument, call with two arguments, has_finished, yield at top level} with canonical hashing of the model state; every transition is replayed on the real VM (program = definitions + action path) and must print exactly the model's labels; the fiber/raw-pointer agreement monitor runs at every instruction. For the plain wrapper every transition is replayed a second time with the fibers defined in an imported module and a main program that updates and prints a global of its own straight after every action.",
         json!({"fibers": nf, "script_length": script_len, "main_sequence_length": main_depth}),
     );
     report.cov("states", json!(total_states));
